@@ -7,6 +7,7 @@ import (
 
 	"github.com/nspcc-dev/neofs-node/pkg/local_object_storage/blobstor/common"
 	"github.com/nspcc-dev/neofs-node/pkg/local_object_storage/writecache"
+	"github.com/nspcc-dev/neofs-node/pkg/util/verifhook"
 	apistatus "github.com/nspcc-dev/neofs-sdk-go/client/status"
 	cid "github.com/nspcc-dev/neofs-sdk-go/container/id"
 	"github.com/nspcc-dev/neofs-sdk-go/object"
@@ -83,6 +84,7 @@ func (s *Shard) getRangeStreamFunc(cnr cid.ID, id oid.ID,
 			s.log.Info("failed to get object from write-cache, fallback to BLOB storage",
 				zap.Stringer("object", addr), zap.Error(err))
 		}
+		verifhook.Point("shard.get.afterCacheMiss")
 	}
 
 	err := blobStorageFn(s.blobStor, addr)
